@@ -1,73 +1,75 @@
+// c01: chain sync fetches and reports exactly the requested chain segment.
+//
+// A real ipnisync.Publisher behind an httptest server that logs every request, a real
+// dagsync.Subscriber (nil libp2p host, memory datastore link system), chains of real
+// advertisement / entry-chunk blocks stored with schema.Linkproto (package syncdrv).
+// Every scenario is run on the real code; the hook log, the request log, the return
+// value, the latest-sync value, the SyncFinished events and the destination store keys
+// are written out as one Coq case (family "sync") that the model must reproduce, and
+// checked here against a Go recomputation of the property's own `segment`.
 package main
 
 import (
-	"context"
-	"crypto/rand"
 	"fmt"
-	"time"
+	"runtime/debug"
 
-	"github.com/ipfs/go-cid"
-	"github.com/ipni/go-libipni/dagsync"
+	logging "github.com/ipfs/go-log/v2"
 	ic "github.com/libp2p/go-libp2p/core/crypto"
 
-	"verif/harness/syncdrv"
+	"verif/harness/vlib"
 )
 
+type rngReader struct{ r *vlib.Rand }
+
+func (r rngReader) Read(p []byte) (int, error) {
+	copy(p, r.r.Bytes(len(p)))
+	return len(p), nil
+}
+
+type replayKind struct {
+	Kind string `json:"kind"`
+}
+
 func main() {
-	key, _, _ := ic.GenerateEd25519Key(rand.Reader)
-	w := syncdrv.NewWorld("t")
-	chain := w.AdChain(5, cid.Undef)
-	for _, b := range w.Blocks {
-		fmt.Println(b.Rank, b.Cid, len(b.Raw), b.Edges)
+	debug.SetMemoryLimit(3 << 30)
+	logging.SetAllLoggers(logging.LevelFatal)
+	c := vlib.Init("C01")
+	defer c.Finish()
+	var err error
+	pubKey, _, err = ic.GenerateEd25519Key(rngReader{vlib.NewRand(4242)})
+	if err != nil {
+		panic(err)
 	}
-	srv := syncdrv.NewServer(w, key)
-	defer srv.Close()
-	run := func(name string, hook string, subOpts []dagsync.Option, callOpts []dagsync.SyncOption, pre []int, head cid.Cid) {
-		srv.Pub.SetRoot(head)
-		srv.Reset(nil, nil)
-		sub := syncdrv.NewSub(hook, subOpts...)
-		sub.Prestore(w, pre)
-		t0 := time.Now()
-		var ret cid.Cid
-		err, pan := syncdrv.Call(func(ctx context.Context) error {
-			var err error
-			ret, err = sub.S.SyncAdChain(ctx, srv.AddrInfo(), callOpts...)
-			return err
-		})
-		dt := time.Since(t0)
-		var latest int
-		if l := sub.S.GetLatestSync(srv.PeerID); l != nil {
-			_ = l
+	c.Family("sync", []string{"From Model Require Import C01_ChainSync."}, "sync_case_ok", 400)
+	defer func() {
+		for _, bw := range worlds {
+			bw.srv.Close()
 		}
-		_ = latest
-		blocks, heads, other := syncdrv.BlockRequests(srv.TakeLog())
-		var hk, rq []int
-		for _, h := range sub.TakeHooks() {
-			hk = append(hk, w.RankOf(h.Cid))
+	}()
+
+	if c.Replay != "" {
+		var k replayKind
+		if err := c.LoadReplay(&k); err != nil {
+			panic(err)
 		}
-		for _, c := range blocks {
-			rq = append(rq, w.RankOf(c))
+		fmt.Printf("replay kind=%s\n", k.Kind)
+		var sc Scn
+		if err := c.LoadReplay(&sc); err != nil {
+			panic(err)
 		}
-		evs := sub.Close()
-		st, unk := sub.StoredRanks(w)
-		fmt.Printf("%s: ret=%d err=%v pan=%q hooks=%v reqs=%v heads=%d other=%v events=%d store=%v unk=%v dt=%v\n", name, w.RankOf(ret), err, pan, hk, rq, heads, other, len(evs), st, unk, dt)
-		for _, e := range evs {
-			fmt.Printf("   event cid=%d count=%d err=%v\n", w.RankOf(e.Cid), e.Count, e.Err)
-		}
+		runScn(c, sc, true)
+		return
 	}
-	run("plain", "nominate", nil, nil, nil, chain[0])
-	run("seg2", "nominate", []dagsync.Option{dagsync.SegmentDepthLimit(2)}, nil, []int{3}, chain[0])
-	run("depth2", "nominate", []dagsync.Option{dagsync.AdsDepthLimit(2)}, nil, nil, chain[0])
-	run("stop", "nominate", nil, []dagsync.SyncOption{dagsync.WithStopAdCid(chain[3])}, nil, chain[0])
-	run("nohead", "nominate", nil, nil, nil, cid.Undef)
-	run("foreignhead", "nominate", nil, []dagsync.SyncOption{dagsync.WithHeadAdCid(syncdrv.ForeignCid())}, nil, chain[0])
-	run("nonstrict", "nominate", []dagsync.Option{dagsync.StrictAdsSelector(false)}, nil, nil, chain[0])
-	t0 := time.Now()
-	for i := 0; i < 200; i++ {
-		srv.Pub.SetRoot(chain[0])
-		sub := syncdrv.NewSub("nominate")
-		syncdrv.Call(func(ctx context.Context) error { _, err := sub.S.SyncAdChain(ctx, srv.AddrInfo()); return err })
-		sub.Close()
-	}
-	fmt.Println("200 syncs", time.Since(t0))
+
+	c.Res.Exhaustive = true
+	c.Res.Rule = "advertisement chains of length 0..5 (quick; 6 sampled) / 0..8 (thorough): head queried or WithHeadAdCid at every position x stop {none, every position incl. the head, foreign CID} given as latest sync / WithStopAdCid / with WithAdsResync / both x depth limit {none,1,k-1,k,k+1} (k = blocks from head to stop) placed as AdsDepthLimit / FirstSyncDepth / ScopedDepthLimit x segment size {off,1,2,k-1,k,k+1} as SegmentDepthLimit / ScopedSegmentDepthLimit, hook general / scoped / silent / none and the pre-stored subset rotating through all 2^n subsets; the full decision table of option resolution on a 3-chain (432 combinations); all 2^n pre-stored subsets for n <= 5 on fixed requests; entries chains of length 0..5 from every position x depth x segment size; SyncOneEntry at every position; SyncHAMTEntries over trees (direct and nested links) with all pre-stored subsets; non-strict advertisement selector over ads with entries; publisher not serving a block (pre-stored or not); two-sync sequences on one subscriber with a growing chain. " +
+		"non-trivial = a call that reported >= 2 blocks under a stop, a depth limit, segmentation or pre-stored blocks"
+	genDecisionTable(c)
+	genAdChains(c)
+	genSubsets(c)
+	genEntries(c)
+	genTrees(c)
+	genNonStrict(c)
+	genHidden(c)
+	genSequences(c)
 }
